@@ -6,7 +6,7 @@ From Capy Require Import Common.Util Model.Defer Model.DeferFixed Spec.DeferSpec
 Fixpoint labels_ok (h : hstmt) : bool :=
   match h with
   | HPrint _ | HDefer _ => true
-  | HBreak l | HContinue l | HTry l => is_some l
+  | HBreak l | HContinue l | HTry _ l => is_some l
   | HBlock _ b => forallb labels_ok b
   | HLoop _ _ b => forallb labels_ok b
   | HIf a b => forallb labels_ok a && forallb labels_ok b
@@ -88,7 +88,7 @@ Proof.
   - exfalso. eapply Hnd. reflexivity.
   - destruct l; [cbn; eauto|discriminate].
   - destruct l; [cbn; eauto|discriminate].
-  - destruct l; [cbn; eauto|discriminate].
+  - destruct l; [destruct k; cbn; eauto|discriminate].
   - cbn [compile_stmt].
     destruct (compile_list_nc _ b H Hl sid st []) as (cd & df & ne & ->). cbn. eauto.
   - cbn [compile_stmt].
@@ -105,7 +105,7 @@ Proof.
   - exfalso. eapply Hnd. reflexivity.
   - destruct l; [cbn; eauto|discriminate].
   - destruct l; [cbn; eauto|discriminate].
-  - destruct l; [cbn; eauto|discriminate].
+  - destruct l; [destruct k; cbn; eauto|discriminate].
   - cbn [compile_stmt_fx].
     destruct (compile_list_nc _ b H Hl sid st []) as (cd & df & ne & ->). cbn. eauto.
   - cbn [compile_stmt_fx].
